@@ -220,4 +220,14 @@ pub mod docs {
 /// crate-private items so an external harness can call them directly.
 #[cfg(rten_verif)]
 #[doc(hidden)]
-pub mod verif {}
+pub mod verif {
+    // C03 (planner): graph construction + `Graph::execution_plan`.
+    pub use crate::graph::{Constant, Graph, Node, OperatorNode, PlanOptions};
+    pub use crate::operator::Operator;
+    pub use crate::ops::{Identity, If, Shape};
+    // C21: external data allow-list predicate and loaders.
+    #[cfg(feature = "onnx_format")]
+    pub use crate::constant_storage::ConstantStorage;
+    #[cfg(feature = "onnx_format")]
+    pub use crate::model::verif_external_data::*;
+}
